@@ -30,6 +30,7 @@ type Prog struct {
 	SSA     *ssa.Program
 	SSAPkg  map[string]*ssa.Package /* By import path. */
 	AllPkgs int                     /* Number of packages seen, deps included. */
+	Overlay map[string][]byte       /* In-memory file replacements (self-test mutants). */
 	funcs   []*ssa.Function         /* Source functions of the module, anons included. */
 }
 
@@ -103,6 +104,7 @@ func Load(o LoadOpts) (*Prog, error) {
 		ByPath:  map[string]*packages.Package{},
 		SSAPkg:  map[string]*ssa.Package{},
 		AllPkgs: nAll,
+		Overlay: o.Overlay,
 	}
 	var sprog *ssa.Program
 	var spkgs []*ssa.Package
